@@ -12,6 +12,7 @@ import (
 
 	"github.com/gorilla/websocket"
 	"verif.local/engine/explore"
+	"verif.local/engine/vrt"
 	"verif.local/ref/netsim"
 	"verif.local/ref/wsref"
 )
@@ -188,7 +189,12 @@ func init() {
 	_ = netsim.OK
 	maskRandWasCrypto = websocket.VerifMaskRandIsCryptoRand()
 	websocket.VerifSetMaskRand(theDetMask)
-	explore.OnExecStart = func() { theDetMask.pos = 0 }
+	explore.OnExecStart = func() {
+		theDetMask.pos = 0
+		if vrt.Active == nil {
+			websocket.VerifResetPools()
+		}
+	}
 }
 
 func addrOf(b []byte) uintptr { return uintptr(unsafe.Pointer(&b[0])) }
